@@ -170,6 +170,9 @@ def build(work, tier):
     recs['QXmppIncomingClient'] = re.sub(r'^typedef struct QXmppIncomingClient \{', 'struct QXmppIncomingClient {', recs['QXmppIncomingClient'])
     recs['QXmppIncomingClient'] = re.sub(r'\} QXmppIncomingClient;\s*$', '};', recs['QXmppIncomingClient'])
     records = '\n'.join(recs[c] for c in ('XmppSocket', 'QXmppPasswordRequest', 'QXmppPasswordReply', 'QXmppIncomingClientPrivate', 'QXmppIncomingClient'))
+    # type invariant of the private object: its enum-typed members hold declared enumerators (generated from the class definition)
+    inv, _ = ctx.enum_field_invariant(path(IC), 'QXmppIncomingClient', 'QXmppIncomingClientPrivate')
+    records += '\n#define QXmppIncomingClientPrivate_ENUMS_VALID(p) (' + inv.replace('%s', 'p') + ')\n'
 
     # ------------------------------------------------------------------ lowering of the real functions
     lowered, specs, lws = {}, {}, []
